@@ -178,6 +178,8 @@ def apply_step(step, env, m, da_mode):
             y.compute_chunk_sizes()
             return y
         return A[0]
+    if op in T6_OPS:  # axis permutations by name, creation functions (name= / dtype= / chunks forms), ufunc(out=, where=)
+        return _apply_step_t6(step, A, m, da_mode)
     raise KeyError(op)
 
 
@@ -546,6 +548,248 @@ class ProgGen:
             raise _Skip
         return self.add({"op": "diff", "args": [a], "axis": ax})
 
+    # --- third-round generators (additive; in no default op list, so existing streams are unchanged):
+    # rank-4/5 sources, axis permutations by every spelling, integer / mixed indices, creation functions with
+    # name= / dtype= / chunks forms, ufuncs with out= / where=, length-changing takes.  See T6_OPS below.
+    def g_src_hi(self):
+        """a fresh rank-4/5 source with small extents (equal extents half of the time: a wrongly permuted
+        result then keeps its shape and only the values tell)"""
+        rng = self.rng
+        r = rng.choice([4, 4, 4, 5])
+        top = 4 if r == 4 else 3
+        if rng.random() < 0.5:
+            n = rng.randint(2, top)
+            shape = (n,) * r
+        else:
+            shape = tuple(rng.randint(1 if rng.random() < 0.15 else 2, top) for _ in range(r))
+        return self.new_source(shape)
+
+    def g_perm(self):
+        """an axis permutation spelled as transpose / .T-like reversal / moveaxis / rollaxis / swapaxes; for rank >= 3
+        non-involutive permutations (cycles) are preferred"""
+        rng = self.rng
+        a = self.pick()
+        n = self.env[a].ndim
+        if n < 2:
+            raise _Skip
+        kind = rng.choice(["transpose", "transpose", "cycle", "cycle", "moveaxis", "moveaxis", "rollaxis", "swapaxes"])
+        if kind == "transpose":
+            axes = list(range(n))
+            rng.shuffle(axes)
+            if rng.random() < 0.3:
+                axes = [x - n for x in axes]  # negative spelling
+            return self.add({"op": "transpose", "args": [a], "axes": axes})
+        if kind == "cycle":
+            k = rng.randint(1, n - 1)
+            axes = [(i + k) % n for i in range(n)]
+            if n >= 4 and rng.random() < 0.5:  # a cycle on a subset, the rest fixed
+                keep = rng.randrange(n)
+                rest = [i for i in range(n) if i != keep]
+                k = rng.randint(1, len(rest) - 1)
+                rot = rest[k:] + rest[:k]
+                axes = list(range(n))
+                for i, j in zip(rest, rot):
+                    axes[i] = j
+            return self.add({"op": "transpose", "args": [a], "axes": axes})
+        if kind == "moveaxis":
+            m = rng.randint(1, min(3, n))
+            src = rng.sample(range(n), m)
+            dst = rng.sample(range(n), m)
+            if rng.random() < 0.3:
+                src = [s - n for s in src]
+            if rng.random() < 0.3:
+                dst = [d - n for d in dst]
+            return self.add({"op": "moveaxis", "args": [a], "source": src, "destination": dst})
+        if kind == "rollaxis":
+            return self.add({"op": "rollaxis", "args": [a], "axis": rng.randint(-n, n - 1), "start": rng.randint(-n, n)})
+        return self.add({"op": "swapaxes", "args": [a], "axis1": rng.randint(-n, n - 1), "axis2": rng.randint(-n, n - 1)})
+
+    def g_getitem_int(self):
+        """basic index with at least one integer; the other positions are full / plain / stepped slices (trailing full
+        slices dropped half of the time)"""
+        rng = self.rng
+        a = self.pick()
+        shape = self.env[a].shape
+        nz = [i for i, d in enumerate(shape) if d > 0]
+        if not nz:
+            raise _Skip
+        ints = set(rng.sample(nz, rng.randint(1, min(len(nz), 2 if len(shape) > 2 else 1))))
+        idx = []
+        for i, d in enumerate(shape):
+            if i in ints:
+                idx.append(rng.randint(-d, d - 1))
+            elif rng.random() < 0.55:
+                idx.append(slice(None))
+            else:
+                idx.append(gen.rand_slice(rng, d, steps=(None, 1, 2, -1)))
+        if rng.random() < 0.5:
+            while idx and isinstance(idx[-1], slice) and idx[-1] == slice(None):
+                idx.pop()
+        return self.add({"op": "getitem", "args": [a], "index": _enc_index(tuple(idx))})
+
+    def g_getitem_any(self):
+        """one of every index kind: integer-bearing, explicit-bound slices, general basic (None / Ellipsis), take"""
+        r = self.rng.random()
+        if r < 0.3:
+            return self.g_getitem_int()
+        if r < 0.55:
+            return self.g_getitem_explicit()
+        if r < 0.8:
+            return self.g_getitem()
+        return self.g_take_len()
+
+    def g_take_len(self):
+        """integer-list take whose length differs from the axis length (repeated / dropped positions), or a pure
+        permutation (control)"""
+        rng = self.rng
+        a = self.pick()
+        x = self.env[a]
+        if x.ndim == 0 or 0 in x.shape:
+            raise _Skip
+        ax = rng.randrange(x.ndim)
+        d = x.shape[ax]
+        r = rng.random()
+        if r < 0.4:
+            lst = [rng.randint(0, d - 1) for _ in range(d + rng.randint(1, 3))]  # longer
+        elif r < 0.8 and d > 1:
+            lst = rng.sample(range(d), rng.randint(1, d - 1))  # shorter, no repeats
+        else:
+            lst = list(range(d))
+            rng.shuffle(lst)
+        if rng.random() < 0.3:
+            lst = [v - d if rng.random() < 0.5 else v for v in lst]
+        idx = [slice(None)] * ax + [lst]
+        return self.add({"op": "getitem", "args": [a], "index": _enc_index(idx)}, tags=("take",))
+
+    def _t6_chunks_arg(self, shape):
+        """a chunks= argument for `shape` in one of the accepted forms (explicit / blockshape / uniform int / -1)"""
+        rng = self.rng
+        r = rng.random()
+        if r < 0.55 or not shape:
+            return [list(c) for c in rand_chunks_nd(rng, shape)]
+        if r < 0.75:
+            return [rng.randint(1, max(1, d)) for d in shape]
+        if r < 0.92:
+            return rng.randint(1, max(1, max(shape)))
+        return -1
+
+    def _t6_name(self, fn):
+        return f"t6-{fn}-{self.rng.getrandbits(40):010x}"
+
+    def g_creation(self, shape=None, named=None):
+        """a creation function (ones / zeros / full / empty / arange / linspace / eye / tri) with or without name=
+        and dtype=, chunks in any accepted form"""
+        rng = self.rng
+        if shape is None:
+            r = rng.randint(1, 3)
+            shape = tuple(rng.randint(1, self.maxdim) for _ in range(r))
+        shape = tuple(int(d) for d in shape)
+        fns = ["ones", "zeros", "full", "full", "empty0"]
+        if len(shape) == 1 and shape[0] >= 1:
+            fns += ["arange", "arange", "linspace"]
+        if len(shape) == 2:
+            fns += ["eye", "tri"]
+        fn = rng.choice(fns)
+        st = {"op": "creation", "fn": fn, "shape": list(shape), "chunks": self._t6_chunks_arg(shape),
+              "dtype": rng.choice([None, "int64", "int64", "float64", "int32"]), "fill": rng.randint(-4, 9), "name": None}
+        if fn in ("ones", "zeros", "full", "empty0"):
+            if named if named is not None else rng.random() < 0.6:
+                st["name"] = self._t6_name(fn)
+            if fn == "empty0":
+                st["dtype"] = "int64"
+        elif fn == "arange":
+            st["start"] = rng.randint(-3, 3)
+            st["step"] = rng.choice([1, 1, 2, 3, -1, -2])
+        elif fn == "linspace":
+            st["start"] = rng.randint(-3, 3)
+            st["step"] = rng.choice([1, 2, -1])
+            st["dtype"] = rng.choice([None, "float64"])
+        else:
+            st["k"] = rng.randint(-2, 2)
+            c = st["chunks"]
+            if fn == "eye" and not isinstance(c, int):
+                st["chunks"] = rng.randint(1, max(shape))  # eye takes a uniform block size only
+        return self.add(st, tags=("creation",))
+
+    def g_creation_named(self):
+        return self.g_creation(named=True)
+
+    def g_creation_like(self):
+        """ones_like / zeros_like / full_like of the current array, with or without name= / dtype= / chunks="""
+        rng = self.rng
+        a = self.pick()
+        x = self.env[a]
+        if x.ndim == 0:
+            raise _Skip
+        fn = rng.choice(["ones_like", "zeros_like", "full_like"])
+        st = {"op": "creation", "fn": fn, "args": [a], "shape": list(x.shape), "fill": rng.randint(-4, 9),
+              "chunks": None if rng.random() < 0.5 else self._t6_chunks_arg(x.shape),
+              "dtype": rng.choice([None, None, "int64", "float64"]), "name": self._t6_name(fn) if rng.random() < 0.6 else None}
+        return self.add(st, tags=("creation",))
+
+    def g_creation_binary(self):
+        """current (op) creation-of-the-same-or-broadcastable-shape: an index on the result is pushed through the
+        elementwise node into the creation node"""
+        rng = self.rng
+        a = self.pick()
+        x = self.env[a]
+        if x.ndim == 0 or x.ndim > 3:
+            raise _Skip
+        shp = list(x.shape)
+        if rng.random() < 0.3:
+            k = rng.randint(0, len(shp) - 1)
+            shp = [1 if rng.random() < 0.3 else d for d in shp[k:]]
+        b = self.g_creation(shape=tuple(shp)) if rng.random() < 0.8 or tuple(shp) != x.shape else self.g_creation_like()
+        return self.add({"op": rng.choice(list(BINARY)), "args": [a, b] if rng.random() < 0.5 else [b, a]})
+
+    def g_src_named(self):
+        """from_array(..., name=<str>) of the shape of the current array (or a fresh one)"""
+        rng = self.rng
+        r = rng.randint(1, 3)
+        shape = tuple(rng.randint(1, self.maxdim) for _ in range(r))
+        step = {"op": "src_named", "shape": list(shape), "chunks": [list(c) for c in rand_chunks_nd(rng, shape)],
+                "mul": rng.choice([1, 3, 7]), "off": rng.randint(-5, 5), "mod": rng.choice([1 << 20, 11, 5]),
+                "name": self._t6_name("src")}
+        return self.add(step)
+
+    def g_map_blocks_named(self):
+        fn = self.rng.choice(list(BLOCK_FUNCS))
+        return self.add({"op": "map_blocks_named", "args": [self.pick()], "fn": fn, "name": self._t6_name(fn)}, tags=("map_blocks",))
+
+    def g_ufunc_out(self, where=None):
+        """ufunc(a, b, out=o[, where=w]) with o (and w) fresh sources of the result's shape with their own chunks;
+        the step's value is o after the call.  b broadcasts against a in a third of the cases."""
+        rng = self.rng
+        a = self.pick()
+        x = self.env[a]
+        if x.ndim == 0 or 0 in x.shape or x.dtype != np.int64:
+            raise _Skip
+        fn = rng.choice(["add", "subtract", "multiply", "maximum", "minimum", "negative", "absolute"])
+        args = [a]
+        if fn not in ("negative", "absolute"):
+            if rng.random() < 0.35:
+                k = rng.randint(0, x.ndim - 1)
+                shp = [1 if rng.random() < 0.3 else d for d in x.shape[k:]]
+            else:
+                shp = list(x.shape)
+            b = self.new_source(tuple(shp))
+            args = [a, b] if rng.random() < 0.6 else [b, a]
+        st = {"op": "ufunc_out", "fn": fn, "where_mod": None}
+        if where if where is not None else rng.random() < 0.3:
+            r = rng.random()
+            wshape = x.shape if r < 0.6 else tuple(1 if rng.random() < 0.5 else d for d in x.shape[rng.randint(0, x.ndim - 1):])
+            args.append(self.new_source(wshape))
+            st["where_mod"] = rng.randint(2, 3)
+        args.append(self.new_source(x.shape))
+        st["args"] = args
+        return self.add(st, tags=("out",))
+
+    def g_ufunc_out_true(self):
+        return self.g_ufunc_out(where=False)
+
+    def g_ufunc_out_where(self):
+        return self.g_ufunc_out(where=True)
+
 
 class Directed(ProgGen):
     """ProgGen whose operand choice is the most recent variable: builds chains."""
@@ -835,10 +1079,9 @@ def in_known_class(prog, npenv=None):
         up = set().union(*[anc.get(a, set()) for a in args]) if args else set()
         if isinstance(st.get("value"), str):
             up |= anc.get(st["value"], set())
-        if "take_dask_index" in up and st["op"] not in _DASK_INDEX_SAFE:
-            # slicing (directly or through roll/flip/diff/...) the result of x[<dask int array>] raises
-            # AttributeError('ArrayOffsetDep' object has no attribute 'shape') on the unchanged tree
-            return "slice-of-dask-int-index"
+        # (the former "slice-of-dask-int-index" avoidance is gone: slicing / taking — directly or through roll/flip/
+        # diff/... — the result of x[<dask int array>] computes since /repo de6ba02 + 3422420; ~900 formerly excluded
+        # programs were compared with NumPy, optimized and not, before the branch was removed)
         if "ufunc_where_out" in up and st["op"] not in _DASK_INDEX_SAFE:
             # an integer index / stepped slice pushed through ufunc(where=<array>, out=<dask array>) raises under
             # optimization on the unchanged tree ("Chunks and shape must be of the same length", "Chunks do not
@@ -1103,3 +1346,160 @@ def gen_clean_program2(rng, depth, tries=50, **kw):
         if in_known_class(prog, g.env) is None:
             return prog, g.env
     raise RuntimeError("generator could not leave the known-defect classes")
+
+
+# ------------------------------------------------------------------------------------
+# third extension round (program-level checks C02 / C08): axis permutations by name, creation
+# functions with name= / dtype= / chunks forms, from_array(name=), ufunc(out=[, where=]).
+# Evaluated by `apply_step` itself (so `run_np` / `run_da` / `progcheck.build` understand them).
+# Added functions only.
+# ------------------------------------------------------------------------------------
+
+T6_OPS = ("moveaxis", "swapaxes", "rollaxis", "creation", "src_named", "ufunc_out", "map_blocks_named")
+
+_T6_DEFAULT_DTYPE = {"ones": "float64", "zeros": "float64", "eye": "float64", "tri": "float64", "empty0": "int64"}
+
+
+def _t6_chunks(c):
+    if isinstance(c, list):
+        return tuple(tuple(v) if isinstance(v, list) else v for v in c)
+    return c
+
+
+def _apply_step_t6(step, A, m, da_mode):
+    op = step["op"]
+    if op == "moveaxis":
+        return m.moveaxis(A[0], tuple(step["source"]), tuple(step["destination"]))
+    if op == "swapaxes":
+        return m.swapaxes(A[0], step["axis1"], step["axis2"])
+    if op == "rollaxis":
+        return m.rollaxis(A[0], step["axis"], step["start"])
+    if op == "map_blocks_named":
+        f = BLOCK_FUNCS[step["fn"]]
+        return A[0].map_blocks(f, dtype=A[0].dtype, name=step["name"]) if da_mode else f(A[0])
+    if op == "src_named":
+        data = source_data(step)
+        if da_mode:
+            return m.from_array(data, chunks=tuple(tuple(c) for c in step["chunks"]), name=step["name"])
+        return data
+    if op == "creation":
+        fn = step["fn"]
+        shape = tuple(step["shape"])
+        dt = step.get("dtype")
+        kw = {}
+        if da_mode:
+            if step.get("chunks") is not None:
+                kw["chunks"] = _t6_chunks(step["chunks"])
+            if step.get("name") is not None:
+                kw["name"] = step["name"]
+        if fn.endswith("_like"):
+            if dt is not None:
+                kw["dtype"] = dt
+            if fn == "full_like":
+                return m.full_like(A[0], step["fill"], **kw)
+            return getattr(m, fn)(A[0], **kw)
+        if dt is not None or not da_mode:
+            d = dt if dt is not None else _T6_DEFAULT_DTYPE.get(fn)
+            if d is not None:
+                kw["dtype"] = d
+        if fn in ("ones", "zeros"):
+            return getattr(m, fn)(shape, **kw)
+        if fn == "full":
+            return m.full(shape, step["fill"], **kw)
+        if fn == "empty0":
+            # empty() has unspecified contents: times 0 (integer dtype) it is zeros, through one more elementwise node
+            return (m.empty(shape, **kw) * 0) if da_mode else np.zeros(shape, dtype=kw["dtype"])
+        if fn == "arange":
+            s, k = step["start"], step["step"]
+            return m.arange(s, s + shape[0] * k, k, **kw)
+        if fn == "linspace":
+            s, k = step["start"], step["step"]
+            return m.linspace(s, s + (shape[0] - 1) * k, shape[0], **kw)
+        if fn == "eye":
+            if da_mode:
+                return m.eye(shape[0], M=shape[1], k=step["k"], **kw)
+            return np.eye(shape[0], M=shape[1], k=step["k"], **kw)
+        if fn == "tri":
+            return m.tri(shape[0], M=shape[1], k=step["k"], **kw)
+        raise KeyError(fn)
+    if op == "ufunc_out":
+        o = A[-1].copy()
+        kw = {"out": o}
+        ins = A[:-1]
+        if step.get("where_mod"):
+            kw["where"] = ins[-1] % step["where_mod"] == 0
+            ins = ins[:-1]
+        res = getattr(m, step["fn"])(*ins, **kw)
+        return o if da_mode else res
+    raise KeyError(op)
+
+
+class DirectedT6(Directed):
+    """Directed + a magnitude guard for floating results (creation functions default to float64): every value stays
+    an exactly representable integer, so any evaluation order gives the same bits."""
+
+    def add(self, step, tags=()):
+        prev = self.last
+        out = super().add(step, tags)
+        val = self.env[out]
+        if val.size and val.dtype.kind == "f" and not (np.isfinite(val).all() and float(np.abs(val).max()) <= float(1 << 40)):
+            self.prog.pop()
+            del self.env[out]
+            self.tags.pop(out, None)
+            self.k -= 1
+            self.last = prev
+            raise _Skip
+        return out
+
+
+def directed_programs_t6(rng, n, patterns, **kw):
+    """like `directed_programs` over DirectedT6; a pattern starting with a source generator (`src_hi`, `creation*`,
+    `src_named`) starts from that source instead of a default one"""
+    kw.setdefault("maxrank", 3)
+    kw.setdefault("maxdim", 6)
+    kw.setdefault("zero_axes", 0.0)
+    for i in range(n):
+        g = DirectedT6(rng, **kw)
+        pat = patterns[i % len(patterns)]
+        try:
+            if pat[0] not in ("src_hi", "creation", "creation_named", "src_named"):
+                g.new_source()
+            for kind in pat:
+                getattr(g, "g_" + kind)()
+        except _Skip:
+            continue
+        yield pat, g
+
+
+# third-round directed chains (generators in harness/programs.py, "third-round generators"): (kwargs of the program
+# generator, patterns).  A pattern starting with a source generator starts from that source.
+T6_PATTERNS = {
+    # rank-4/5 sources, permutations by every spelling, then integer / mixed indices (index pushed below the transpose)
+    "perm": ({"maxrank": 5}, (
+        ("src_hi", "perm", "getitem_int"), ("src_hi", "perm", "perm", "getitem_int"), ("src_hi", "perm", "unary", "getitem_int"),
+        ("src_hi", "perm", "getitem_any"), ("src_hi", "unary", "perm", "getitem_int", "getitem_int"), ("src_hi", "perm", "getitem_int", "perm"),
+        ("src_hi", "perm", "getitem_int", "binary_new"), ("src_hi", "perm", "reduce", "getitem_any"),
+        # siblings: other pushdowns through a permutation, other rules that renumber the surviving axes at rank >= 4
+        ("src_hi", "perm", "take_len"), ("src_hi", "perm", "rechunk"), ("src_hi", "expand_dims", "getitem_int"),
+        ("src_hi", "reduce", "getitem_int"), ("src_hi", "stack", "getitem_int"), ("src_hi", "concatenate", "getitem_int"),
+        ("src_hi", "getitem_int", "getitem_int"), ("src_hi", "flip", "perm", "getitem_int"),
+    )),
+    # creation functions with / without name=, dtype=, chunks forms, then every index kind
+    "creation": ({}, (
+        ("creation", "getitem_any"), ("creation_named", "getitem_any"), ("creation_named", "getitem_int"), ("creation_named", "getitem_explicit"),
+        ("creation_binary", "getitem_any"), ("creation_binary", "getitem_explicit"), ("creation_like", "getitem_any"),
+        ("creation_named", "unary", "getitem_any"), ("creation_named", "getitem_any", "getitem_any"), ("creation_binary", "unary", "getitem_int"),
+        ("src_named", "getitem_any"), ("src_named", "unary", "getitem_any"), ("creation_named", "perm", "getitem_any"),
+        ("creation_named", "rechunk", "getitem_any"), ("creation_named", "reduce"), ("creation_named", "getitem_any", "reduce"),
+        ("creation_named", "take_len"), ("creation_binary", "take_len"), ("creation_named", "expand_dims", "getitem_any"),
+        ("creation_named", "rechunk"), ("map_blocks_named", "getitem_any"), ("creation_like", "take_len"),
+    )),
+    # ufunc(out=) / ufunc(out=, where=<array>), then slices, integer indices, takes that change the axis length
+    "out": ({}, (
+        ("ufunc_out_true", "take_len"), ("ufunc_out_true", "getitem_any"), ("ufunc_out_true", "getitem_int"), ("ufunc_out_true", "getitem_explicit"),
+        ("ufunc_out_true", "unary", "take_len"), ("ufunc_out_true", "perm", "getitem_any"), ("ufunc_out_true", "take_len", "take_len"),
+        ("ufunc_out_true", "reduce"), ("ufunc_out_true", "rechunk", "take_len"), ("ufunc_out_true", "binary_new", "take_len"),
+        ("ufunc_out_where", "take_len"), ("ufunc_out_where", "getitem_any"), ("ufunc_out_where", "getitem_int"),
+        ("ufunc_out_where", "getitem_explicit"), ("ufunc_out_where", "unary", "take_len"), ("ufunc_out_where", "ufunc_out_true", "getitem_any"),
+    )),
+}
